@@ -10,20 +10,25 @@ namespace GoUefi.GenBoot
 open GoUefi GoUefi.Gen
 
 /-- the names that `bootorder.Unmarshal` appends for the buffer content `bs`, written with the prelude's `fmtHex`
-    (what `fmt.Sprintf("Boot%04X", val)` is translated to): one per complete little-endian pair, and one for a
-    trailing single byte, which `b.Read(sec)` leaves in `sec[0]` next to the zero of the fresh `sec[1]` -/
+    (what `fmt.Sprintf("Boot%04X", val)` is translated to): one per complete little-endian pair and no other — the
+    loop runs while `b.Len() >= 2`, so a trailing single byte is not read (F35 repair) -/
 def bootNames : List UInt8 → List String
   | a :: b :: r => ("Boot" ++ fmtHex true 4 (a.toNat + 256 * b.toNat)) :: bootNames r
-  | [a] => ["Boot" ++ fmtHex true 4 a.toNat]
+  | [_] => []
   | [] => []
 
-theorem lenI_cons_ne_zero {α : Type} (a : α) (r : List α) : (lenI (a :: r) != (0 : Int)) = true := by
-  rw [lenI_eq, List.length_cons]
-  simp only [bne_iff_ne, ne_eq]
+/-- what `bootorder.Unmarshal` leaves in the buffer: the bytes behind the `⌊len/2⌋` complete pairs -/
+def rest (bs : List UInt8) : List UInt8 := bs.drop (2 * (bs.length / 2))
+
+theorem lenI_ge_two {α : Type} (a c : α) (r : List α) : decide (lenI (a :: c :: r) ≥ (2 : Int)) = true := by
+  rw [lenI_eq, List.length_cons, List.length_cons]
+  simp only [decide_eq_true_eq]
   omega
 
-theorem lenI_nil_ne_zero {α : Type} : (lenI ([] : List α) != (0 : Int)) = false := by
-  rw [lenI_eq, List.length_nil]; rfl
+theorem lenI_lt_two {α : Type} (bs : List α) (h : bs.length < 2) : decide (lenI bs ≥ (2 : Int)) = false := by
+  rw [lenI_eq]
+  simp only [decide_eq_false_iff_not]
+  omega
 
 /-- `b.Read(sec)` with two or more bytes left: both bytes of `sec` are overwritten -/
 theorem bufRead_two (a c : UInt8) (r : List UInt8) (x y : UInt8) :
@@ -33,9 +38,6 @@ theorem bufRead_two (a c : UInt8) (r : List UInt8) (x y : UInt8) :
     List.take_zero, List.drop_succ_cons, List.drop_nil, List.append_nil, List.drop_zero]
   rfl
 
-/-- `b.Read(sec)` with a single byte left: `sec[0]` is that byte, `sec[1]` keeps its value; no error -/
-theorem bufRead_one (a : UInt8) (x y : UInt8) : bufRead [x, y] [a] = ([a, y], [], 1, none) := rfl
-
 theorem be16_val (a c : UInt8) : (decBE16 [c, a]).toNat = a.toNat + 256 * c.toNat := by
   have ha := UInt8.toNat_lt a
   have hc := UInt8.toNat_lt c
@@ -43,49 +45,44 @@ theorem be16_val (a c : UInt8) : (decBE16 [c, a]).toNat = a.toNat + 256 * c.toNa
   simp only [List.getD_cons_zero, List.getD_cons_succ, UInt16.toNat_ofNat']
   omega
 
-/-- nothing left: the loop ends -/
-theorem loop_nil (fuel : Nat) (bo : efivarfs.bootorder) (i : Int) :
-    efivarfs.bootorder.Unmarshal.loop1 (fuel + 1) bo [] i = Loop.done (bo, [], i) := by
-  rw [efivarfs.bootorder.Unmarshal.loop1, lenI_nil_ne_zero]
+/-- fewer than two bytes left (none, or a trailing single byte): the loop ends and the buffer is not touched -/
+theorem loop_stop (fuel : Nat) (bo : efivarfs.bootorder) (bs : List UInt8) (i : Int) (h : bs.length < 2) :
+    efivarfs.bootorder.Unmarshal.loop1 (fuel + 1) bo bs i = Loop.done (bo, bs, i) := by
+  rw [efivarfs.bootorder.Unmarshal.loop1, lenI_lt_two bs h]
   rfl
 
 /-- one turn on a complete pair -/
 theorem loop_pair (fuel : Nat) (bo : efivarfs.bootorder) (a c : UInt8) (r : List UInt8) (i : Int) :
     efivarfs.bootorder.Unmarshal.loop1 (fuel + 1) bo (a :: c :: r) i =
       efivarfs.bootorder.Unmarshal.loop1 fuel (bo ++ ["Boot" ++ fmtHex true 4 (a.toNat + 256 * c.toNat)]) r (i + 2) := by
-  rw [efivarfs.bootorder.Unmarshal.loop1, lenI_cons_ne_zero, if_pos rfl]
+  rw [efivarfs.bootorder.Unmarshal.loop1, lenI_ge_two, if_pos rfl]
   have hsec : List.replicate ((2 : Int)).toNat (0 : UInt8) = [0, 0] := rfl
   simp only [hsec, bufRead_two, List.getD_cons_zero, List.getD_cons_succ, be16_val]
 
-/-- one turn on a trailing single byte: it is the low byte of a last entry whose high byte is zero -/
-theorem loop_single (fuel : Nat) (bo : efivarfs.bootorder) (a : UInt8) (i : Int) :
-    efivarfs.bootorder.Unmarshal.loop1 (fuel + 1) bo [a] i =
-      efivarfs.bootorder.Unmarshal.loop1 fuel (bo ++ ["Boot" ++ fmtHex true 4 a.toNat]) [] (i + 2) := by
-  rw [efivarfs.bootorder.Unmarshal.loop1, lenI_cons_ne_zero, if_pos rfl]
-  have hsec : List.replicate ((2 : Int)).toNat (0 : UInt8) = [0, 0] := rfl
-  have hz : a.toNat + 256 * (0 : UInt8).toNat = a.toNat := by
-    have : (0 : UInt8).toNat = 0 := rfl
-    omega
-  simp only [hsec, bufRead_one, List.getD_cons_zero, List.getD_cons_succ, be16_val, hz]
+theorem rest_cons_cons (a c : UInt8) (r : List UInt8) : rest (a :: c :: r) = rest r := by
+  have e : 2 * ((a :: c :: r).length / 2) = 2 * (r.length / 2) + 1 + 1 := by
+    simp only [List.length_cons]; omega
+  rw [rest, e, List.drop_succ_cons, List.drop_succ_cons, rest]
 
-/-- the whole loop: with `⌈len/2⌉ + 1` units of fuel or more it completes (never the out-of-fuel value), the
-    buffer is empty afterwards and exactly `bootNames bs` has been appended -/
+/-- the whole loop: with `⌊len/2⌋ + 1` units of fuel or more it completes (never the out-of-fuel value), exactly
+    `bootNames bs` has been appended and the buffer holds `rest bs` -/
 theorem loop_eq : ∀ (bs : List UInt8) (fuel : Nat) (bo : efivarfs.bootorder) (i : Int),
-    (bs.length + 1) / 2 + 1 ≤ fuel →
-    ∃ i', efivarfs.bootorder.Unmarshal.loop1 fuel bo bs i = Loop.done (bo ++ bootNames bs, [], i')
+    bs.length / 2 + 1 ≤ fuel →
+    ∃ i', efivarfs.bootorder.Unmarshal.loop1 fuel bo bs i = Loop.done (bo ++ bootNames bs, rest bs, i')
   | [], fuel, bo, i, h => by
     obtain ⟨f, rfl⟩ : ∃ f, fuel = f + 1 := ⟨fuel - 1, by omega⟩
-    exact ⟨i, by rw [loop_nil, bootNames, List.append_nil]⟩
+    exact ⟨i, by rw [loop_stop _ _ _ _ (by simp), bootNames, List.append_nil]; rfl⟩
   | [a], fuel, bo, i, h => by
-    obtain ⟨f, rfl⟩ : ∃ f, fuel = f + 2 := ⟨fuel - 2, by simp only [List.length_cons, List.length_nil] at h; omega⟩
-    exact ⟨i + 2, by rw [loop_single, loop_nil, bootNames]⟩
+    obtain ⟨f, rfl⟩ : ∃ f, fuel = f + 1 := ⟨fuel - 1, by omega⟩
+    have hr : rest [a] = [a] := by simp [rest]
+    exact ⟨i, by rw [loop_stop _ _ _ _ (by simp), bootNames, List.append_nil, hr]⟩
   | a :: c :: r, fuel, bo, i, h => by
     obtain ⟨f, rfl⟩ : ∃ f, fuel = f + 1 := ⟨fuel - 1, by omega⟩
-    have hf : (r.length + 1) / 2 + 1 ≤ f := by simp only [List.length_cons] at h; omega
+    have hf : r.length / 2 + 1 ≤ f := by simp only [List.length_cons] at h; omega
     obtain ⟨i', hi'⟩ := loop_eq r f (bo ++ ["Boot" ++ fmtHex true 4 (a.toNat + 256 * c.toNat)]) (i + 2) hf
-    exact ⟨i', by rw [loop_pair, hi', bootNames, List.append_assoc, List.singleton_append]⟩
+    exact ⟨i', by rw [loop_pair, hi', bootNames, rest_cons_cons, List.append_assoc, List.singleton_append]⟩
 
-theorem bootNames_length : ∀ bs : List UInt8, (bootNames bs).length = (bs.length + 1) / 2
+theorem bootNames_length : ∀ bs : List UInt8, (bootNames bs).length = bs.length / 2
   | [] => rfl
   | [_] => by simp [bootNames]
   | _ :: _ :: r => by
@@ -95,22 +92,34 @@ theorem bootNames_length : ∀ bs : List UInt8, (bootNames bs).length = (bs.leng
 /-- the names are the model's (`Impl.bootOrder` of Model/Boot.lean), as strings -/
 theorem bootNames_model : ∀ bs : List UInt8, bootNames bs = (Impl.bootOrder bs).map String.ofList
   | [] => rfl
-  | [a] => by
-    have ha := UInt8.toNat_lt a
-    rw [bootNames, Impl.bootOrder, List.map_cons, List.map_nil, GenFmt.boot_name _ (by omega)]; rfl
+  | [_] => rfl
   | a :: c :: r => by
     have ha := UInt8.toNat_lt a
     have hc := UInt8.toNat_lt c
     rw [bootNames, Impl.bootOrder, List.map_cons, bootNames_model r, GenFmt.boot_name _ (by omega)]; rfl
 
-/-- a trailing single byte behind complete pairs -/
+/-- a trailing single byte behind complete pairs adds no name -/
 theorem bootNames_append_single : ∀ (xs : List UInt8) (a : UInt8), xs.length % 2 = 0 →
-    bootNames (xs ++ [a]) = bootNames xs ++ ["Boot" ++ fmtHex true 4 a.toNat]
+    bootNames (xs ++ [a]) = bootNames xs
   | [], a, _ => rfl
   | [_], a, h => by simp at h
   | x :: y :: r, a, h => by
     have h' : r.length % 2 = 0 := by simp only [List.length_cons] at h; omega
-    rw [List.cons_append, List.cons_append, bootNames, bootNames_append_single r a h', bootNames, List.cons_append]
+    rw [List.cons_append, List.cons_append, bootNames, bootNames_append_single r a h', bootNames]
+
+/-- the rest is empty or a single byte -/
+theorem rest_length (bs : List UInt8) : (rest bs).length = bs.length % 2 := by
+  rw [rest, List.length_drop]; omega
+
+/-- an even length leaves nothing -/
+theorem rest_even (bs : List UInt8) (h : bs.length % 2 = 0) : rest bs = [] :=
+  List.eq_nil_of_length_eq_zero (by rw [rest_length, h])
+
+/-- a trailing single byte behind complete pairs is what is left -/
+theorem rest_append_single (xs : List UInt8) (a : UInt8) (h : xs.length % 2 = 0) : rest (xs ++ [a]) = [a] := by
+  have e : 2 * ((xs ++ [a]).length / 2) = xs.length := by
+    rw [List.length_append, List.length_singleton]; omega
+  rw [rest, e, List.drop_left]
 
 /-- the `k`-th name comes from the `k`-th complete pair -/
 theorem bootNames_get : ∀ (bs : List UInt8) (k : Nat), 2 * k + 1 < bs.length →
